@@ -25,7 +25,8 @@ ASSUMPTIONS = ['base documents carry quote-free comments (own-line and trailing,
                'word-like stray tokens are not in the catalogue: they are frequently valid DBML in context',
                'faults are placed between the writer\'s tokens, never inside a literal, name or type']
 KINDS = ['stray', 'del_struct', 'extra_struct', 'unterminated', 'no_type', 'unknown_setting', 'bad_index_type',
-         'bad_operator', 'bad_action', 'bad_colour', 'garbage_end', 'garbage_start', 'truncate', 'literal_as_name']
+         'bad_operator', 'bad_action', 'bad_colour', 'garbage_end', 'garbage_start', 'truncate', 'literal_as_name',
+         'dup_settings', 'empty_block', 'dup_type_args']
 FLOORS = {'quick': {f'kind:{k}': 15 for k in KINDS}, 'thorough': {f'kind:{k}': 300 for k in KINDS}}
 STRAY = ['@', '%', ';', '=', '!', '~', '^', '&', '|', '?', '$', '@@', '=;']
 SETTING_KINDS = {'column', 'index', 'enum_item', 'table_open', 'group_open', 'ref_short', 'ref_body', 'settings_cont'}
@@ -160,6 +161,38 @@ def fault(draw, lines, eol='\n'):
             return None
         i, j = draw(st.sampled_from(c))
         lines[i].toks[j].text = draw(st.sampled_from(['`users`', '`a b`', "'users'", "'''users'''", '#fff', '`x [\n y ]\n`', '``']))
+    elif kind == 'dup_settings':
+        # a settings list may appear once: `id int [pk] [unique]`, `Ref: a.b > c.d [..] [..]`, `x [note: ..] [note: ..]`
+        c = [i for i in real if lines[i].part == 'only' and lines[i].kind in SETTING_KINDS - {'settings_cont'}
+             and any(t.cls == 'punct' and t.text == '[' for t in lines[i].toks) and any(t.cls == 'punct' and t.text == ']' for t in lines[i].toks)]
+        if not c:
+            return None
+        i = draw(st.sampled_from(c))
+        toks = lines[i].toks
+        a = next(k for k, t in enumerate(toks) if t.cls == 'punct' and t.text == '[')
+        b = max(k for k, t in enumerate(toks) if t.cls == 'punct' and t.text == ']')
+        dup = [Tok(t.text, t.cls, t.pre) for t in toks[a:b + 1]]
+        dup[0].pre = ' '
+        lines[i].toks = toks[:b + 1] + dup + toks[b + 1:]
+    elif kind == 'empty_block':
+        # an Enum needs at least one item, an indexes block at least one index
+        opens = [i for i in real if lines[i].kind in ('enum_open', 'indexes_open')]
+        if not opens:
+            return None
+        i = draw(st.sampled_from(opens))
+        close = 'enum_close' if lines[i].kind == 'enum_open' else 'indexes_close'
+        j = i + 1
+        while lines[j].kind != close:
+            j += 1
+        lines = lines[:i + 1] + [l for l in lines[i + 1:j] if l.kind in ('blank', 'comment')] + lines[j:]
+    elif kind == 'dup_type_args':
+        c = toks_where(lambda l, t: l.kind == 'column' and t.cls == 'type' and not t.text.endswith('[]'))
+        if not c:
+            return None
+        i, j = draw(st.sampled_from(c))
+        lines[i].toks[j].text += draw(st.sampled_from(['(1)(2)', '(3)'])) if not lines[i].toks[j].text.endswith(')') else '(9)'
+        if not lines[i].toks[j].text.endswith(')(2)') and not lines[i].toks[j].text.endswith(')(9)'):
+            lines[i].toks[j].text += '(2)'
     elif kind == 'garbage_end':
         lines.append(Line('fault', (), [Tok(draw(st.sampled_from(STRAY + ['}', ']', '{', '['])), 'fault')]))
     elif kind == 'garbage_start':
